@@ -196,15 +196,15 @@ class C19(Property):
                   "real concurrent runs; the property's 'once per loss' clause is false when a consumer's recovery starts after the regeneration completed "
                   "(known finding)")
     level_note = "Lean kernel; recovery workflows and inter-workflow token delivery are runtime layers"
-    quick_budget_s = 900
-    thorough_budget_s = 3000
+    quick_budget_s = 2400        # room for one confirmation re-run of a timed-out case (5x its bound), see recov.run_confirmed
+    thorough_budget_s = 6000
     min_nontrivial = 5
 
     def explore(self, ctx: Ctx) -> None:
         quick = ctx.tier == "quick" and ctx.mode != "search"
         cases = gen_cases(ctx.rng, quick)
         results = {}
-        for case, status, r in recov.run_cases(cases, timeout=300, workers=6):
+        for case, status, r in recov.run_cases(cases, timeout=300, workers=6, ctx=ctx):
             results[case["name"]] = (case, status, r)
         lines, meta = [], []
         for name, (case, status, r) in results.items():
@@ -242,9 +242,33 @@ class C19(Property):
             if acts:
                 lines.append("claims " + " ".join(acts))
                 meta.append((case, r))
+                # the same trace on the status-refined model with the generated status test: checks carry the scheduler status they saw
+                sacts = []
+                for e in r.get("fm_events", []):
+                    kind, rid, jn = e[0], e[1], e[2]
+                    j = jobs[jn]
+                    if kind == "acquire":
+                        sacts.append(f"a{rid}:{j}")
+                    elif kind == "release":
+                        sacts.append(f"r{rid}:{j}")
+                    elif kind == "check":
+                        sacts.append(f"k{rid}:{j}:{'T' if e[3] else 'F'}:{e[4] if len(e) > 4 else 'UNKNOWN'}")
+                    elif kind == "claim":
+                        sacts.append(f"c{rid}")
+                lines.append("status " + " ".join(sacts))
+                meta.append((dict(case, _status_model=True), r))
         got = ctx.lean("Drivers/C19.lean", lines)
         for g, (case, r) in zip(got, meta):
             g = g.strip()
+            if case.get("_status_model"):
+                case = {k: v for k, v in case.items() if k != "_status_model"}
+                if not g.startswith("ok"):
+                    ctx.disagree("lock/check/claim trace with observed statuses is not a run of the status-refined claim model",
+                                 f"{case['name']}: {g}; trace {r['fm_events'][:40]}", {"recovery": case})
+                elif "maxclaims=1" not in g and "maxclaims=0" not in g:
+                    ctx.disagree("status-refined claim model: a job claimed twice within one execution epoch", f"{case['name']}: {g}; "
+                                 f"trace {r['fm_events'][:40]}", {"recovery": case})
+                continue
             if not g.startswith("ok"):
                 ctx.disagree("lock/claim trace is not a run of the claim model", f"{case['name']}: {g}; trace {r['fm_events'][:30]}", {"recovery": case})
             elif "maxclaims=1" not in g and "maxclaims=0" not in g:
